@@ -2261,3 +2261,48 @@ Qed.
 
 Example ex_wf_source : forall r rasn l, (rasn = 65001 <-> role_is_ibgp r = true) -> wf_source (SrcPeer (ex_peer r rasn l)).
 Proof. intros r rasn l H ps E. inversion E; subst ps. cbn. exact H. Qed.
+
+(* ================================================================ histories: the neighbour's Adj-RIB-In *)
+Lemma run_changes_reach : forall x pol emax raddr cid cs e r d pid nh out s,
+  run_changes x pol emax raddr cid cs e = Ok r -> In (Reach d pid nh out s) (fst r) ->
+  exists c e', In c cs /\ advertised x pol emax raddr cid c e' d pid nh out s.
+Proof.
+  intros x pol emax raddr cid. induction cs as [|c t IH]; intros e r d pid nh out s H Hin.
+  - cbn in H. inversion H; subst. contradiction.
+  - cbn [run_changes] in H.
+    destruct (process_change x pol emax raddr cid c e) as [r1|] eqn:E1; [|discriminate]. cbn [rbind] in H.
+    destruct (run_changes x pol emax raddr cid t (snd r1)) as [r2|] eqn:E2; [|discriminate]. cbn [rbind] in H.
+    inversion H; subst r. cbn [fst] in Hin. apply in_app_or in Hin. destruct Hin as [Hin|Hin].
+    + exists c, e. split; [left; reflexivity|]. exists r1. auto.
+    + destruct (IH _ _ _ _ _ _ _ E2 Hin) as (c' & e' & Hc & Ha). exists c', e'. split; [right; exact Hc | exact Ha].
+Qed.
+
+(* Whatever sequence of changes a neighbour's task processes, starting from any export
+   map: every entry of the Adj-RIB-In it builds from the messages (the view) was put
+   there by an advertisement that respects the three "never" rules; towards an eBGP
+   peer no entry carries an iBGP-only attribute, whatever the export policy. *)
+Theorem C09_history_view_allowed : forall x pol emax raddr cid cs e r d pid v,
+  run_changes x pol emax raddr cid cs e = Ok r ->
+  view_after (fst r) d pid None = Some v ->
+  exists nh s, In (Reach d pid nh v s) (fst r)
+    /\ ~ learned_from s raddr
+    /\ ~ crosses_rs_boundary s (x_role x)
+    /\ (x_role x = Ibgp -> ~ nonclient_ibgp_source s)
+    /\ (x_role x = Ebgp -> ebgp_strips_ok v).
+Proof.
+  intros x pol emax raddr cid cs e r d pid v H Hv.
+  destruct (view_after_cases _ _ _ _ _ Hv) as [(nh & s & Hin) | (Hn & _)]; [|discriminate].
+  exists nh, s. split; [exact Hin|].
+  destruct (run_changes_reach _ _ _ _ _ _ _ _ _ _ _ _ _ H Hin) as (c & e' & _ & Ha).
+  split; [exact (C09_no_echo _ _ _ _ _ _ _ _ _ _ _ _ Ha)|].
+  split; [exact (C09_no_rs_boundary_crossing _ _ _ _ _ _ _ _ _ _ _ _ Ha)|].
+  split; [intro Hr; exact (C09_no_ibgp_nonclient_to_nonclient _ _ _ _ _ _ _ _ _ _ _ _ Ha Hr)|].
+  intro Hr. exact (proj1 (C09_ebgp_any_policy _ _ _ _ _ _ _ _ _ _ _ _ Hr Ha)).
+Qed.
+
+Example ex_history : exists r v,
+  run_changes (ex_ctx Ebgp 0) no_policy 1 (ip4 10 0 0 1) None
+              [ex_change (SrcPeer (ex_peer Ebgp 65002 false)); ex_change (SrcPeer (ex_peer RsClient 65002 false));
+               ex_change (SrcPeer (ex_peer Ebgp 65003 true))] ENone = Ok r
+  /\ view_after (fst r) 1 0 None = Some v.
+Proof. do 2 eexists. split; vm_compute; reflexivity. Qed.
